@@ -193,7 +193,7 @@ deriving DecidableEq, Repr
 
 /-- a path segment with the outcome of `base64.urlsafe_b64decode(raw + "==").decode("utf-8")` -/
 inductive B64 where
-  | ok (s : String) | binascii | unicode
+  | ok (s : String) | binascii | unicode | nonAscii
 deriving DecidableEq, Repr
 
 structure Seg where
@@ -438,7 +438,8 @@ def base64urlDecode (d : B64) : Res String :=
   catching "base64url_decode" (match d with
     | .ok s => .ok s
     | .binascii => .py .binasciiError
-    | .unicode => .py .unicodeDecodeError)
+    | .unicode => .py .unicodeDecodeError
+    | .nonAscii => .py .valueError)
 
 inductive Pat where
   | lit (s : String) | b64 (name : String) | idPath (name : String) | rest (name : String)
@@ -628,7 +629,7 @@ def getSlice {α : Type} (r : Req) (l : List α) : Res (List α × Nat) :=
     match (match r.limit with | .absent => some 10 | .val i => some i | .bad => (none : Option Int)),
           (match r.cursor with | .absent => some 0 | .val i => some i | .bad => (none : Option Int)) with
     | some lim, some cur =>
-      if lim < 0 ∨ cur < 0 then raiseOf "_get_slice" 0
+      if lim < 0 ∨ cur < 0 ∨ cur + lim > 9223372036854775807 then raiseOf "_get_slice" 0    -- sys.maxsize
       else .ok ((l.drop cur.toNat).take lim.toNat, cur.toNat + lim.toNat)
     | _, _ => .py .valueError)
 
@@ -907,7 +908,7 @@ def dispatch (ep : String) (a : Args) (r : Req) : M Out :=
 def errResp (code : Nat) : Resp := ⟨code, none, .result⟩
 
 /-- `WSGIApp.handle_request` -/
-def handle (s : St) (r : Req) : St × Out :=
+def handleCore (s : St) (r : Req) : St × Out :=
   -- `get_response_type`: NotAcceptable is returned as it is (werkzeug's own page)
   if r.accept = .notAcceptable then (s, .resp ⟨406, none, .plain⟩)
   else
@@ -916,10 +917,19 @@ def handle (s : St) (r : Req) : St × Out :=
     | .py e => (s, .crash e)
     | .ok (ep, a) =>
       match dispatch ep a r s with
-      | (s', .ok (.resp resp)) => (s', .resp (if r.method = "HEAD" then { resp with body := .empty } else resp))
       | (s', .ok o) => (s', o)
       | (s', .http c) => (s', .resp (errResp c))
       | (s', .py e) => (s', .crash e)
+
+/-- the WSGI layer sends no body in answer to HEAD -/
+def headStrip (r : Req) : Out → Out
+  | .resp resp => if r.method = "HEAD" then .resp { resp with body := .empty } else .resp resp
+  | o => o
+
+/-- `WSGIApp.__call__` -/
+def handle (s : St) (r : Req) : St × Out :=
+  match handleCore s r with
+  | (s', o) => (s', headStrip r o)
 
 def run (s : St) : List Req → St × List Out
   | [] => (s, [])
